@@ -158,7 +158,11 @@ def main(argv):
             with open(path, "w") as fh:
                 json.dump({"property": prop, "clause": f["clause"], "sig": sig, "detail": f["detail"],
                            "hashseed": hashseed, "runseed": runseed, "tier": tier, "shrink_tests": ntests,
-                           "case": mini, "original_case_ops": _nops(case), "minimised_case_ops": _nops(mini)},
+                           "case": mini, "original_case_ops": _nops(case), "minimised_case_ops": _nops(mini),
+                           # kept for the parent: a failure that depends on what the process did before (a cache in the code under
+                           # test that outlives a run) lets candidates "fail" in the polluted worker that pass in a fresh interpreter;
+                           # the parent then falls back to the case as generated
+                           "original_case": (case if mini is not case else None)},
                           fh, default=core._default, indent=1)
             rec["replays"].append({"sig": sig, "clause": f["clause"], "path": path, "detail": f["detail"]})
         emit(rec)
